@@ -172,9 +172,13 @@ def _reject(ctx, case, nc, wd):
         if rng.random() < 0.3:
             o.update({"undo": True})
     elif kind == "hostbits-range":
-        o.update({"anonymize-ips": True, "salt": "s1", "preserve-host-bits": rng.choice(["33", "-1", "64", "128", "1000", "-32"])})
+        o.update({"salt": "s1", "preserve-host-bits": rng.choice(["33", "-1", "64", "128", "1000", "-32"])})
+        # the value is unusable whatever else is selected
+        o.update(rng.choice([{"anonymize-ips": True}, {"anonymize-ips": True}, {"undo": True}, {"anonymize-passwords": True},
+                             {"sensitive-words": "zurich"}, {"as-numbers": "65000"}]))
     elif kind == "hostbits-nonint":
-        o.update({"anonymize-ips": True, "salt": "s1", "preserve-host-bits": rng.choice(["x", "8.5", "eight", "0x8", "8,8"])})
+        o.update({"salt": "s1", "preserve-host-bits": rng.choice(["x", "8.5", "eight", "0x8", "8,8"])})
+        o.update(rng.choice([{"anonymize-ips": True}, {"undo": True}, {"anonymize-passwords": True}]))
     elif kind == "missing-input":
         o.pop("input")
         o.update({"anonymize-ips": True, "salt": "s1"})
